@@ -53,11 +53,7 @@ impl BigUint {
     pub fn new(digits: Vec<u32>) -> (r: BigUint)
         ensures r.wf(), r.v() == val32(digits@)
     { unimplemented!() }
-    //@ assume BigUint::is_one : `self.data[..] == [1]` (slice/array equality has no vstd spec)
-    #[verifier::external_body]
-    pub fn is_one(&self) -> (r: bool)
-        ensures self.wf() ==> r == (self.v() == 1)
-    { unimplemented!() }
+//@ stub u_core/is_one
 }
 
 
